@@ -363,25 +363,35 @@ def run(ctx):
             if last is None:
                 ctx.bad("R02.4", key, loc(b, c.bb), "cannot determine the last buffer handed to write_all_vectored")
                 continue
-            pr = Prov(b)
-            dom = b.dominators()
-            good = []
-            appends = []
-            for x in b.calls():
-                if x.name in ("push_raw_str", "push", "push_integer", "json_string", "extend_from_within_range") and x.args:
-                    ro = pr.operand(x.args[0])
-                    if any(o[0] == "arg" and o[2] == last for o in ro):
-                        appends.append(x)
-                        k = op_const(x.args[1]) if len(x.args) > 1 else None
-                        s = None
-                        if x.name == "push_raw_str":
-                            s = BufSim(F, b, CR)._const_str(x.args[1])
-                        if s is not None and s.endswith("\n") and dominates(b, x.bb, c.bb, dom):
-                            good.append(x)
-            later = [x for x in appends if any(x.bb in b.reachable_after(g.bb) for g in good) and x not in good and c.bb in b.reachable_after(x.bb)]
+            def framed(fb, site_bb, name):
+                """newline-literal appends to the buffer field `name` dominating site_bb in fb, and appends after them before the site"""
+                fpr = Prov(fb)
+                fdom = fb.dominators()
+                good, appends = [], []
+                sim_ = BufSim(F, fb, CR)
+                for x in fb.calls():
+                    if x.name in ("push_raw_str", "push", "push_integer", "json_string", "extend_from_within_range") and x.args:
+                        ro = fpr.operand(x.args[0])
+                        if any(o[0] == "arg" and o[2] and o[2][-1] == name for o in ro):
+                            appends.append(x)
+                            s_ = sim_._const_str(x.args[1]) if x.name == "push_raw_str" else None
+                            if s_ is not None and s_.endswith("\n") and dominates(fb, x.bb, site_bb, fdom):
+                                good.append(x)
+                later = [x for x in appends if any(x.bb in fb.reachable_after(g.bb) for g in good) and x not in good and site_bb in fb.reachable_after(x.bb)]
+                return good, later, appends
+
+            good, later, appends = framed(b, c.bb, last[-1])
+            where = "bb%s" % [g.bb for g in good]
+            if not good and not appends:
+                # the write sits in a helper that only sends: the framing is the business of every caller
+                callers = [cs for cs in F.callers_of(b.path, crates=[CR]) if in_scope(cs.body)]
+                res = [framed(cs.body, cs.bb, last[-1]) for cs in callers]
+                if callers and all(g and not l for g, l, _ in res):
+                    good, later = [g for g, _, _ in res][0], []
+                    where = "the caller(s) %s before the call" % [fnkey(cs.body).split("::")[-1] for cs in callers]
             ctx.check(bool(good) and not later, "R02.4", key, loc(b, c.bb),
                       "the last buffer (%s) of a vectored write is not terminated by the newline literal on every path (or something is appended after it)" % ".".join(last),
-                      "buffer %s ends with the `}\\n` literal appended at bb%s" % (".".join(last), [g.bb for g in good]))
+                      "buffer %s ends with the `}\\n` literal appended at %s" % (".".join(last), where))
     ctx.floor("R02.4", "write_all_vectored call sites", nw, 2)
     return EXPL
 
